@@ -313,6 +313,22 @@ def main(argv=None):
             samples.append(dict(obligation=ob.oid, kind=ob.kind, status=ob.status, smtlib=core.smt2_text(core._formula(ob)[0])[:1200] if isinstance(ob.goal, z3.ExprRef) else str(ob.goal)))
         except Exception:
             samples.append(dict(obligation=ob.oid, kind=ob.kind, status=ob.status))
+    # T1 lemma library (Lean 4 + Mathlib): listed always, re-checked by Lean in the thorough tier
+    lem_file = os.path.join(VERIF, "lemmas", "FlowjaxLemmas.lean")
+    lemma_names = []
+    if os.path.exists(lem_file):
+        import re as _re
+        lemma_names = _re.findall(r"^theorem\s+(\w+)", open(lem_file).read(), _re.M)
+    lemma_lib = dict(file="lemmas/FlowjaxLemmas.lean", theorems=lemma_names, rechecked_this_run=False)
+    if tier == "thorough" and lemma_names and os.path.realpath(REPO) == "/repo":
+        try:
+            lp = subprocess.run([os.path.join(VERIF, "bin", "lemmas")], capture_output=True, text=True, timeout=1500)
+            lemma_lib.update(rechecked_this_run=True, accepted=lp.returncode == 0, lean_output=(lp.stdout or "")[-300:])
+            if lp.returncode != 0:
+                print("CHECKER-ERROR lemma library rejected by Lean:", (lp.stdout or "")[-300:])
+                exit_code = exit_code or 3
+        except Exception as ex:  # noqa: BLE001
+            lemma_lib.update(rechecked_this_run=False, error=str(ex)[:200])
     ev = dict(
         property_id=pid, tier=tier, seed=seed, level=level,
         coverage=dict(
@@ -327,6 +343,7 @@ def main(argv=None):
             missing_vs_baseline=missing, guards_undetermined=guards_unknown, cross_check=xcheck, assume_sites=assume_sites(ctxs),
             proved_functions=sorted({ob.fn for ob in obs if ob.fn and ob.status in ("discharged", "ok")} - {ob.fn for ob in obs if ob.fn and ob.status not in ("discharged", "ok", "guard_unknown")}),
             bounded=l3 if l3.get("ran") else dict(ran=False, reason=l3.get("reason")),
+            lemma_library=lemma_lib,
             samples=samples,
             known_findings=[kf for _ob, kf in known_hits],
             explanation=spec.get("explanation", "obligations generated from the real /repo ASTs by symbolic execution against sidecar contracts; each is discharged by an SMT solver for all inputs (reals)"),
@@ -337,6 +354,7 @@ def main(argv=None):
         assumptions=sorted(assumptions | dropped | {
             "machine floats / float arrays are treated as mathematical reals (no rounding, overflow, NaN unless modelled explicitly)",
             "the symbolic executor (fjvc) and the library model entries listed in coverage.trusted_base are trusted; T2 = uninterpreted real functions with ground axiom instances, T3 = assumed contracts of dependencies",
+            "T1 mathematical facts used as contract hypotheses (determinant of triangular / permutation matrices, multiplicativity of det, log-sum-exp shift law, softmax normalisation, adjacent => global monotonicity, softplus > 0, matrix-product associativity) are proved in lemmas/FlowjaxLemmas.lean (Lean 4 + Mathlib, re-checked by bin/lemmas in the thorough tier); their instantiation at the contract's terms is by hand",
             "extraction drops: decorators (jit/filter_jit/wraps as identity), type annotations, docstrings, tqdm progress calls, f-string message text",
         }),
         wall_s=round(time.time() - t0, 2),
